@@ -17,8 +17,8 @@
                          resp. `remD`, under the NaN rule: C01 / C10 / C12 for the operator forms;
   * `from_*_spec`, `from_u128_spec`, `default_spec`, `neg_spec`, `copy_spec'`, `copy_sign_spec'`, `is_canonical_spec'`;
   * `sum_spec`, `product_spec` — the folds never fail and equal the left fold of the specification's binary step;
-  * `glue_total`       — C15 for all 35 glue operations: `run3 op args = some (.ok _)` for every well-typed argument list
-                         (any length for the folds).
+  * `glue_total`       — (in `C15GenGlue2`) C15 for all 35 glue operations: `run3 op args = some (.ok _)` for every well-typed
+                         argument list (any length for the folds); `glueOps_covered` ties the list to the regenerated dispatch.
   The by-reference forms are the `forward_ref` crate's macros (outside /repo): the generator gives them the by-value arm when
   the macro invocation is present in d128.rs; that the macro dereferences and forwards is trusted, and observed on every run
   (`corr translated-code` on `op_*_ref`).
